@@ -9,11 +9,12 @@ import numpy as np
 
 
 # --------------------------------------------------------------------------- data
-def make_series(rng, T, N, regimes=3, scale=1.0, seg=(15, 40), offset=None):
-    """regime-switching Gaussian series, T x N; each regime has its own mean and mixing matrix."""
+def make_series(rng, T, N, regimes=3, scale=1.0, seg=(15, 40), offset=None, mean_scale=1.0):
+    """regime-switching Gaussian series, T x N; each regime has its own mean and mixing matrix (mean_scale = 0: the
+    regimes share one mean and differ in correlation structure only)."""
     rs = np.random.RandomState(rng.randrange(2 ** 31))
     mixes = [rs.randn(N, N) * 0.6 + np.eye(N) for _ in range(regimes)]
-    means = [rs.randn(N) * 3.0 for _ in range(regimes)]
+    means = [rs.randn(N) * 3.0 * mean_scale for _ in range(regimes)]
     out = np.zeros((T, N))
     t = 0
     r = rs.randint(regimes)
@@ -543,6 +544,23 @@ def degenerate_configs(rng, count):
     return out
 
 
+def concentrated_configs(rng, count):
+    """complete runs on small-amplitude data (normalised sensors: within-regime std 0.05 .. 0.2) with a light penalty and
+    regimes that differ in correlation structure more than in level: densities above 1, so that minus the log-likelihood
+    of a window is NEGATIVE under several clusters at once (the sign of a cost carries no meaning)."""
+    out = []
+    for i in range(count):
+        cfg = gen_config(rng, joint=False)
+        cfg.update({"N": 2, "W": rng.choice([1, 2, 2]), "K": 2, "regimes": 2, "limit": rng.choice([3, 6]),
+                    "scale": rng.choice([0.05, 0.1, 0.2]), "mean_scale": rng.choice([0.0, 0.15, 0.3]),
+                    "lam": rng.choice([0.01, 0.0, 0.02]), "beta": rng.choice([1, 5.0]), "eps": 0, "m": 5})
+        cfg["lens"] = [cfg["W"] - 1 + rng.randint(150, 200)]
+        for k in ("dtype", "completion", "flat"):
+            cfg.pop(k, None)
+        out.append(cfg)
+    return out
+
+
 def high_dimensional_configs(rng, scales):
     """complete runs with many dimensions (3 sensors x window 20: NW = 60) at extreme data scales: the determinant of an
     MRF, its square root and every partial product of pivots leave the double range (log det around -1700 at scale 1e6)."""
@@ -572,7 +590,7 @@ def find_repopulating_config(rng, tries=40, joint=False):
 def config_data(cfg):
     r = pyrandom.Random(cfg["data_seed"])
     series = [make_series(r, L, cfg["N"], regimes=cfg.get("regimes", 3), scale=cfg.get("scale", 1.0),
-                          seg=(8, 30)) for L in cfg["lens"]]
+                          seg=(8, 30), mean_scale=cfg.get("mean_scale", 1.0)) for L in cfg["lens"]]
     if cfg.get("flat"):
         # a flat-lined stretch: every sensor stuck at one reading for a run of rows (exactly repeated rows, hence
         # exactly repeated windows: a cluster of identical windows has a zero covariance)
